@@ -7,9 +7,16 @@ import (
 	"encoding/json"
 	"fmt"
 	"io"
+	"os"
+	"reflect"
+	"runtime"
+	"strconv"
 	"strings"
+	"syscall"
 	"testing"
+	"testing/iotest"
 	"time"
+	"unsafe"
 
 	"github.com/Eyevinn/mp4ff/bits"
 	"github.com/Eyevinn/mp4ff/mp4"
@@ -24,9 +31,43 @@ import (
 
 func TestMain(m *testing.M) { harness.Main(m) }
 
-func init() { harness.RegisterReplay("container", harness.Replayer(checkContainer)) }
+func init() {
+	harness.RegisterReplay("container", harness.Replayer(checkContainer))
+	// development aid: VERIF_C04_NOAVOID=all or a comma-separated list of switch names
+	if v := os.Getenv("VERIF_C04_NOAVOID"); v == "all" {
+		avoidKnown = map[string]bool{}
+	} else if v != "" {
+		for _, name := range strings.Split(v, ",") {
+			delete(avoidKnown, name)
+		}
+	}
+}
 
 func TestReplay(t *testing.T) { harness.ReplayPath(t) }
+
+// avoidKnown lists input shapes on which the unchanged library contradicts the property. A generated case of such a
+// shape is counted (harness.Rec.Exclude(name)) instead of being judged, so that the check stays green and the search
+// goes on behind it: cases whose recipe announces the shape are not executed at all (they may take a minute or exhaust
+// the address space), any other case is classified after an allocation or time failure by scanning its bytes
+// (scanShape). Reproducers are parked under /verif/replay/C04/pending/ (they carry "noAvoid": true).
+var avoidKnown = map[string]bool{
+	// Containers nested N deep cost O(N^2) in time (decode, Info, Size/Encode) and in memory (Info): every level of
+	// DecodeContainerChildren / ContainerInfo / EncodeContainer asks its child for Size(), which walks the whole subtree
+	// again (mp4/container.go), Info repeats an indentation that grows with the depth, and an error from the bottom is
+	// wrapped once per level. 25 000 nested udta boxes (200 KB) take 5-15 s per stage and 650 MB in Info.
+	"nest-depth>=1000": true,
+	// A container with N children of certain kinds costs O(N^2): MoovBox.AddChild walks all children for every trak
+	// (mp4/moov.go; 200 000 empty trak boxes, 1.6 MB, take about 50 s to decode), 100 000 saiz boxes in one parent
+	// allocate 40 GB in total. Recipes with a "repeat" of 10 000 copies or more are not executed; an input with
+	// 10 000 trak boxes in one moov that fails for time is attributed to the same switch.
+	"repeat>=10000": true,
+	// File.CopySampleData trusts the sample tables of the decoded moov: chunk offsets outside the mdat box panic in the
+	// non-lazy branch (mp4/file.go: mdat.Data[offset-payloadStart : ...]), an stsc entry with samples_per_chunk 0 divides
+	// by zero and an empty stsc is indexed in StscBox.GetContainingChunks, a sample number beyond stsz panics in
+	// StszBox.GetSampleSize, huge counts allocate gigabytes. Sample access is outside the wording of C04, so the lazy
+	// read stage leaves CopySampleData out (MdatBox.ReadData/CopyData remain).
+	"copysampledata-hostile-tables": true,
+}
 
 type containerCase struct {
 	Seed   string           `json:"seed"`            // name in the seed pool, "" when Data is given
@@ -34,10 +75,14 @@ type containerCase struct {
 	Data   harness.HexBytes `json:"data,omitempty"`  // explicit bytes (random / hand-written cases; filled in for reports)
 	Synth  harness.HexBytes `json:"synth,omitempty"` // bytes written by the grammar generator internal/boxgen (Muts apply on top)
 	Origin string           `json:"origin,omitempty"`
-	Entry  string           `json:"entry"` // DecodeFile | DecodeFileLazy | DecodeFileSR | DecodeBox | DecodeBoxSR | DecodeBoxLazyMdat
-	Flags  int              `json:"flags"` // bit0 DecISMFlag, bit1 DecStartOnMoof
-	Info   string           `json:"info"`  // Info detail levels
-	Enc    int              `json:"enc"`   // bit0 box-tree mode, bit1 EncodeSW, bit2 OptimizeTrun, bit3 second encode
+	// Entry: DecodeFile | DecodeFileLazy (ReadSeeker, lazy mdat, then every sample through the lazy read API) |
+	// DecodeFileOneByte (not a Seeker, one byte per Read) | DecodeFileSR | DecodeBox | DecodeBoxSR | DecodeBoxLazyMdat
+	Entry string `json:"entry"`
+	Flags int    `json:"flags"` // bit0 DecISMFlag, bit1 DecStartOnMoof
+	Info  string `json:"info"`  // Info detail levels
+	Enc   int    `json:"enc"`   // bit0 box-tree mode, bit1 EncodeSW, bit2 OptimizeTrun, bit3 second encode
+	// NoAvoid: execute the case even if its shape is listed in avoidKnown (parked reproducers)
+	NoAvoid bool `json:"noAvoid,omitempty"`
 }
 
 func (c containerCase) bytes() []byte {
@@ -54,37 +99,423 @@ func (c containerCase) bytes() []byte {
 	return boxmut.Apply(s, c.Muts)
 }
 
-const allocConst = 4 << 20
-const allocPerByte = 16384
+// avoid reports whether the named switch applies to this case.
+func (c containerCase) avoid(name string) bool { return !c.NoAvoid && avoidKnown[name] }
 
-type stageInfo struct {
-	decoded, info, encoded bool
+// avoidRecipe names the switch that keeps this case from being built and executed, judged by the recipe alone.
+func (c containerCase) avoidRecipe() string {
+	for _, m := range c.Muts {
+		if m.Op == "nest" && m.N >= 1000 && m.Str != "zzzz" && c.avoid("nest-depth>=1000") {
+			return "nest-depth>=1000"
+		}
+		if m.Op == "repeat" && m.N >= 10000 && c.avoid("repeat>=10000") {
+			return "repeat>=10000"
+		}
+	}
+	return ""
 }
 
-var lastStage stageInfo
+// shape: the scale features of an input that the known findings are keyed by.
+type shape struct {
+	depth    int   // deepest nesting of boxes the library decodes as containers
+	maxTraks int   // most trak children of one moov
+	implicit int64 // samples declared by trun boxes that carry no per-sample field (at most 1024 each are admitted)
+}
+
+// scanShape walks the box structure iteratively (no recursion, no error values: the input may be 25 000 levels deep).
+func scanShape(data []byte) (sh shape) {
+	type frame struct {
+		end, traks int
+		typ        string
+	}
+	stack := []frame{{end: len(data)}}
+	pos := 0
+	pop := func() {
+		top := stack[len(stack)-1]
+		if top.typ == "moov" && top.traks > sh.maxTraks {
+			sh.maxTraks = top.traks
+		}
+		pos = top.end
+		stack = stack[:len(stack)-1]
+	}
+	for len(stack) > 0 {
+		top := &stack[len(stack)-1]
+		if pos+8 > top.end {
+			pop()
+			continue
+		}
+		size, hdr := int(uint32(data[pos])<<24|uint32(data[pos+1])<<16|uint32(data[pos+2])<<8|uint32(data[pos+3])), 8
+		typ := string(data[pos+4 : pos+8])
+		switch size {
+		case 0:
+			size = top.end - pos
+		case 1:
+			hdr = 16
+			if pos+16 > top.end || data[pos+8]|data[pos+9]|data[pos+10]|data[pos+11] != 0 {
+				pop()
+				continue
+			}
+			size = int(uint32(data[pos+12])<<24 | uint32(data[pos+13])<<16 | uint32(data[pos+14])<<8 | uint32(data[pos+15]))
+		}
+		if size < hdr || size > top.end-pos {
+			pop()
+			continue
+		}
+		if top.typ == "moov" && typ == "trak" {
+			top.traks++
+		}
+		if typ == "trun" && size >= hdr+8 {
+			p := pos + hdr
+			flags := uint32(data[p+1])<<16 | uint32(data[p+2])<<8 | uint32(data[p+3])
+			count := uint32(data[p+4])<<24 | uint32(data[p+5])<<16 | uint32(data[p+6])<<8 | uint32(data[p+7])
+			if flags&0xf00 == 0 && count <= 1024 {
+				sh.implicit += int64(count)
+			}
+		}
+		skip := -1
+		switch {
+		case typ == "meta":
+			skip = 4
+		case typ == "stsd" || typ == "dref":
+			skip = 8
+		case boxwalk.IsContainer(typ) && len(typ) == 4 && typ[0] >= 'a' && typ[0] <= 'z' && typ != "stpp" && typ != "wvtt" && typ != "evte" &&
+			typ != "avc1" && typ != "avc3" && typ != "hvc1" && typ != "hev1" && typ != "encv" && typ != "av01" && typ != "vvc1" && typ != "vvi1" &&
+			typ != "vp08" && typ != "vp09" && typ != "avs3" && typ != "mp4a" && typ != "enca" && typ != "mha1" && typ != "mhm1":
+			skip = 0 // plain containers; sample entries are left alone (their depth is bounded by the grammar)
+		}
+		if skip >= 0 && hdr+skip <= size {
+			stack = append(stack, frame{end: pos + size, typ: typ})
+			if len(stack)-1 > sh.depth {
+				sh.depth = len(stack) - 1
+			}
+			pos += hdr + skip
+			continue
+		}
+		pos += size
+	}
+	return sh
+}
+
+// implicitOf returns the number of samples declared by trun boxes without per-sample fields (memoised for the last input).
+var implicitMemo struct {
+	data *byte
+	n    int
+	v    int64
+}
+
+func implicitOf(data []byte) int64 {
+	if len(data) == 0 {
+		return 0
+	}
+	if implicitMemo.data == &data[0] && implicitMemo.n == len(data) {
+		return implicitMemo.v
+	}
+	implicitMemo.data, implicitMemo.n, implicitMemo.v = &data[0], len(data), scanShape(data).implicit
+	return implicitMemo.v
+}
+
+// avoidShape names the switch whose shape the bytes have ("" if none): asked after an allocation or time failure.
+func (c containerCase) avoidShape(data []byte) string {
+	if c.NoAvoid {
+		return ""
+	}
+	sh := scanShape(data)
+	switch {
+	case sh.depth >= 1000 && c.avoid("nest-depth>=1000"):
+		return "nest-depth>=1000"
+	case sh.maxTraks >= 10000 && c.avoid("repeat>=10000"):
+		return "repeat>=10000"
+	}
+	return ""
+}
+
+// ---------------------------------------------------------------------------------------------
+// Bounds. n = len(input). Every stage (decode, Info, Size, each encode) is judged on its own.
+//
+// Allocation: allocConst + allocSmall*min(n, allocKnee) + allocPerByte*n. The steep part covers the library's
+// deliberate admission of tiny boxes that declare many entries (a 16-byte trun with up to 1024 samples: 16 KiB of
+// Sample structs, ~40 KiB of Info text), which a constant bounds as long as there are few of them; beyond the knee only
+// a modest multiple of the input remains legitimate. The first run reads runtime/metrics (cheap, coarse); a stage
+// above a quarter of the bound is measured again with runtime.ReadMemStats (exact), and that value is judged.
+// Measured on the unchanged tree (quick tier, 560 000 cases, known shapes aside): 0.96 of the bound for a 22-byte subs
+// box whose subsample_count is 65535 (4.3 MB: DecodeSubsSR appends 65535 entries before it looks at the reader's error;
+// one such box per decode, so it stays inside the constant), otherwise at most 0.18 (1.5 MiB for a sidx that declares
+// 65535 references; 61 MB = 58 bytes/byte for a 1 MB table produced by "grow").
+//
+// Time, in CPU time of the executing thread (see cpuNow): a stage that takes longer than timeSoft(n) makes the whole
+// pipeline run twice more, in process, and the minimum is compared with timeHard(n). Measured on the unchanged tree
+// (known shapes aside) under a load average of 75-160 on 16 cores: worst stage 0.06 of timeHard (6.5 ms for a 3.5 KB
+// file that holds 100 nested trak boxes; 35 ms for Info of a 576 KB file = 0.06 us/byte); 0.15 for a single,
+// unrepeated measurement. Inputs of the trun-implicit-samples family below the size at which they fail reach 0.3
+// (100 such boxes in a 3 KB file: 25-30 ms of Info) and 0.44 with 48 busy loops next to the 14 shards: thread CPU time
+// inflates by a factor of about 1.8 on an oversubscribed machine (shared cores and caches), wall time inflated by 100
+// (99 ms, minimum of three, for a stage that needs 1 ms). The wall-clock watchdog (10 s + 10 us/byte per pipeline
+// run) stays for true hangs.
+//
+// Development aids: VERIF_C04_SOFTDIV=k divides the soft limits (more cases measured three times),
+// VERIF_C04_DUMPRATIO=r keeps every passing case whose worst ratio exceeds r, VERIF_C04_NOAVOID=all|names.
+const (
+	allocConst   = 4 << 20
+	allocSmall   = 16384
+	allocKnee    = 4096
+	allocPerByte = 256
+
+	timeSoftConst   = 25 * time.Millisecond
+	timeSoftPerByte = 250 * time.Nanosecond
+	timeHardConst   = 100 * time.Millisecond
+	timeHardPerByte = 1 * time.Microsecond
+)
+
+// Allowance for samples without per-sample fields. The library deliberately admits a trun that carries no per-sample
+// field and declares up to 1024 samples (TrunBox: "expectedSize" rule): 16 bytes of Sample struct per declared sample at
+// decode, about 40 bytes of text and 0.25 us in Info at level 1. That is a FIXED multiple of the input (a 16-byte box
+// per 1024 samples), which is all the property asks for; a bound that counts input bytes only would have to carry the
+// factor 2500 for every byte. Instead a case that exceeds a bound is judged again with the declared implicit samples
+// (counted by scanShape from the input bytes, at most 1024 per trun) added: implicitAlloc bytes and implicitTime per
+// sample. Cases that pass only with the allowance are counted (class "passes-with-implicit-sample-allowance").
+const (
+	implicitAlloc = 128
+	implicitTime  = 1 * time.Microsecond
+)
+
+func allocBound(n int) uint64 {
+	k := n
+	if k > allocKnee {
+		k = allocKnee
+	}
+	return allocConst + allocSmall*uint64(k) + allocPerByte*uint64(n)
+}
+
+// softDiv (development aid, VERIF_C04_SOFTDIV): divides the soft limit, so that more cases are measured three times
+// when the worst ordinary ratio is surveyed.
+var softDiv = func() time.Duration {
+	if v, err := strconv.Atoi(os.Getenv("VERIF_C04_SOFTDIV")); err == nil && v > 0 {
+		return time.Duration(v)
+	}
+	return 1
+}()
+
+// dumpRatio (development aid, VERIF_C04_DUMPRATIO): passing cases whose worst allocation or time ratio exceeds it are
+// written to out/<ID>/violations as dev-ratio-* files.
+var dumpRatio = func() float64 {
+	v, _ := strconv.ParseFloat(os.Getenv("VERIF_C04_DUMPRATIO"), 64)
+	return v
+}()
+
+func timeSoft(n int) time.Duration {
+	return (timeSoftConst + time.Duration(n)*timeSoftPerByte) / softDiv
+}
+func timeHard(n int) time.Duration { return timeHardConst + time.Duration(n)*timeHardPerByte }
+
+// stageRec is the measurement of one stage of the pipeline.
+type stageRec struct {
+	name  string // decode | reads | info | size | encode | encode2
+	dur   time.Duration
+	alloc uint64
+	ok    bool
+}
+
+// unbounded: stages outside the wording of the property (only panics and hangs count there).
+var unbounded = map[string]bool{"reads": true}
+
+type runResult struct {
+	stages                 []stageRec
+	decoded, info, encoded bool
+	neither                bool // the decoder returned neither a structure nor an error
+}
+
+// exactAlloc: measure allocation with runtime.ReadMemStats (stops the world and flushes the per-P caches: exact, about
+// 100 us per reading) instead of runtime/metrics (cheap; the per-P statistics are folded in span by span, which was
+// seen to attribute up to 1.7 MB to a stage that decodes an empty input). Set for the repeated runs.
+var exactAlloc bool
+
+func heapAllocs() uint64 {
+	if exactAlloc {
+		var ms runtime.MemStats
+		runtime.ReadMemStats(&ms)
+		return ms.TotalAlloc
+	}
+	return harness.HeapAllocs()
+}
+
+func (r *runResult) stage(name string, fn func() bool) bool {
+	a0 := heapAllocs()
+	t0 := cpuNow()
+	ok := fn()
+	d := cpuNow() - t0
+	r.stages = append(r.stages, stageRec{name: name, dur: d, alloc: heapAllocs() - a0, ok: ok})
+	return ok
+}
+
+// cpuNow returns the CPU time consumed so far by the calling thread (clock_gettime(CLOCK_THREAD_CPUTIME_ID)); the
+// pipeline runs with the goroutine locked to its thread. The time oracle is about the work an input causes, and the
+// shards share the machine with 13 siblings and whatever else runs: wall time under an 8-fold oversubscribed machine
+// showed 100 ms for stages that need 1 ms of CPU. Time in which nothing is computed (a blocked read, a deadlock) is
+// left to the wall-clock watchdog. If the clock is not available the wall clock is used.
+func cpuNow() time.Duration {
+	var ts syscall.Timespec
+	const clockThreadCPUTimeID = 3
+	if _, _, errno := syscall.Syscall(syscall.SYS_CLOCK_GETTIME, clockThreadCPUTimeID, uintptr(unsafe.Pointer(&ts)), 0); errno != 0 {
+		return time.Duration(time.Now().UnixNano())
+	}
+	return time.Duration(ts.Sec)*time.Second + time.Duration(ts.Nsec)
+}
+
+// runInfo is what the last checkData call observed (evidence classes; never part of the verdict).
+type runInfo struct {
+	res          runResult
+	avoided      string  // switch that kept the case from being executed
+	avoidedAfter string  // switch that a failure of the executed case was attributed to
+	allocRatio   float64 // worst stage allocation / bound
+	timeRatio    float64 // worst stage time / hard bound (after repetition, if any)
+	repeated     bool
+}
+
+var lastRun runInfo
+
+// worst ratios seen by this process (reported as a note in the evidence)
+var worstAlloc, worstTime struct {
+	ratio float64
+	what  string
+}
 
 func checkContainer(c containerCase) *harness.Fail {
-	data := c.bytes()
-	pristine := append([]byte{}, data...)
+	_, f := evalCase(c)
+	return f
+}
+
+// evalCase builds the bytes of the case and judges them; data is nil when the recipe itself is a known shape.
+func evalCase(c containerCase) (data []byte, f *harness.Fail) {
+	lastRun = runInfo{}
+	if name := c.avoidRecipe(); name != "" {
+		lastRun.avoided = name
+		harness.Rec.Exclude(name)
+		return nil, nil
+	}
+	data = c.bytes()
+	return data, checkData(c, data)
+}
+
+func watchedRun(c containerCase, data []byte, exact bool) (res runResult, f *harness.Fail) {
+	exactAlloc = exact
+	defer func() { exactAlloc = false }()
+	runtime.LockOSThread()
+	defer runtime.UnlockOSThread()
 	harness.StartWatch(10*time.Second + time.Duration(len(data))*10*time.Microsecond)
-	before := harness.HeapAllocs()
-	var st stageInfo
-	f := harness.Guarded(func() *harness.Fail { st = runContainer(c, data); return nil })
-	alloc := harness.HeapAllocs() - before
+	f = harness.Guarded(func() *harness.Fail { res = runContainer(c, data); return nil })
 	harness.StopWatch()
-	lastStage = st
+	return res, f
+}
+
+// knownShape turns an allocation or time failure on an input of a known shape into a counted exclusion.
+func knownShape(c containerCase, data []byte, f *harness.Fail) *harness.Fail {
+	if name := c.avoidShape(data); name != "" {
+		lastRun.avoidedAfter = name
+		harness.Rec.Exclude(name)
+		return nil
+	}
+	return f
+}
+
+func checkData(c containerCase, data []byte) *harness.Fail {
+	pristine := append([]byte{}, data...)
+	res, f := watchedRun(c, data, false)
+	lastRun.res = res
 	if f != nil {
 		return f
 	}
-	if alloc > allocConst+allocPerByte*uint64(len(data)) {
-		stage := "decode"
-		if st.decoded {
-			stage = "info/encode"
+	if res.neither {
+		return harness.Failf("C04|"+c.Entry+"|neither structure nor error", "the decoder returned (nil, nil) for %d input bytes", len(data))
+	}
+	n := len(data)
+	var wa, wt float64 // worst ratios of this case; they count for the process only if the case passes
+	var waWhat, wtWhat string
+	// First run: cheap measurements. A stage over a soft limit (a quarter of the allocation bound, timeSoft) makes the
+	// whole pipeline run twice more, in process, with exact allocation accounting; the verdict is on the minimum.
+	bound := allocBound(n)
+	allocs := map[string]uint64{}
+	durs := map[string]time.Duration{}
+	over := false
+	for _, s := range res.stages {
+		allocs[s.name], durs[s.name] = s.alloc, s.dur
+		if !unbounded[s.name] && (s.dur > timeSoft(n) || s.alloc > bound/4/uint64(softDiv)) {
+			over = true
 		}
-		return harness.Failf("alloc|"+c.Entry+"|"+stage, "%d bytes allocated for %d input bytes (bound %d + %d x len)", alloc, len(data), allocConst, allocPerByte)
+	}
+	for rep := 0; over && rep < 2; rep++ {
+		again, f := watchedRun(c, data, true)
+		if f != nil {
+			return f
+		}
+		over = false
+		for _, s := range again.stages {
+			if d, ok := durs[s.name]; ok && s.dur < d {
+				durs[s.name] = s.dur
+			}
+			if a, ok := allocs[s.name]; ok && (s.alloc < a || !lastRun.repeated) {
+				allocs[s.name] = s.alloc // the first exact value replaces the cheap one
+			}
+			if !unbounded[s.name] && durs[s.name] > timeSoft(n) {
+				over = true
+			}
+		}
+		lastRun.repeated = true
+	}
+	hard := timeHard(n)
+	for _, s := range res.stages {
+		if unbounded[s.name] {
+			continue
+		}
+		a := allocs[s.name]
+		r := float64(a) / float64(bound)
+		if r > lastRun.allocRatio {
+			lastRun.allocRatio = r
+		}
+		if r > wa {
+			wa, waWhat = r, fmt.Sprintf("%s %s: %d bytes allocated for %d input bytes (exact: %v)", c.Entry, s.name, a, n, lastRun.repeated)
+		}
+		if a > bound && implicitOf(data) > 0 && a <= bound+implicitAlloc*uint64(implicitOf(data)) {
+			harness.Rec.Class("passes-with-implicit-sample-allowance")
+			continue
+		}
+		if a > bound {
+			return knownShape(c, data, harness.Failf("alloc|"+c.Entry+"|"+s.name, "%d bytes allocated for %d input bytes (bound %d + %d x min(len,%d) + %d x len)",
+				a, n, allocConst, allocSmall, allocKnee, allocPerByte))
+		}
+	}
+	for _, s := range res.stages {
+		if unbounded[s.name] {
+			continue
+		}
+		d := durs[s.name]
+		r := float64(d) / float64(hard)
+		if r > lastRun.timeRatio {
+			lastRun.timeRatio = r
+		}
+		if r > wt {
+			wt, wtWhat = r, fmt.Sprintf("%s %s: %s for %d input bytes (repeated: %v)", c.Entry, s.name, d, n, lastRun.repeated)
+		}
+		if d > hard && implicitOf(data) > 0 && d <= hard+implicitTime*time.Duration(implicitOf(data)) {
+			harness.Rec.Class("passes-with-implicit-sample-allowance")
+			continue
+		}
+		if d > hard {
+			return knownShape(c, data, harness.Failf("C04|time|"+c.Entry+"|"+s.name, "%s of CPU time (minimum of 3 runs) for %d input bytes (bound %s + %s x len)",
+				d, n, timeHardConst, timeHardPerByte))
+		}
 	}
 	if !bytes.Equal(data, pristine) {
 		return harness.Failf("C04|"+c.Entry+"|input bytes modified", "")
+	}
+	if dumpRatio > 0 && (wa > dumpRatio || wt > dumpRatio) { // development aid: keep the cases that come close to a bound
+		raw, _ := json.Marshal(c)
+		harness.WriteViolation(&harness.ReplayFile{Property: "C04", Kind: "container", Key: fmt.Sprintf("dev-ratio-%.2f-%.2f", wa, wt), Msg: waWhat + "; " + wtWhat, Case: raw})
+	}
+	if wa > worstAlloc.ratio {
+		worstAlloc.ratio, worstAlloc.what = wa, waWhat
+	}
+	if wt > worstTime.ratio {
+		worstTime.ratio, worstTime.what = wt, wtWhat
 	}
 	return nil
 }
@@ -93,7 +524,29 @@ type discard struct{ n int }
 
 func (d *discard) Write(p []byte) (int, error) { d.n += len(p); return len(p), nil }
 
-func runContainer(c containerCase, data []byte) (st stageInfo) {
+// isNil reports a nil interface or a nil pointer inside one.
+func isNil(v interface{}) bool {
+	if v == nil {
+		return true
+	}
+	rv := reflect.ValueOf(v)
+	return rv.Kind() == reflect.Ptr && rv.IsNil()
+}
+
+// encodeWriter returns a slice writer for a structure that reports the given size. A wrong Size() must not turn into
+// an allocation finding of ours, so the buffer is capped (and it is allocated outside the measured stages).
+func encodeWriter(size uint64, n int) bits.SliceWriter {
+	if size > uint64(n)*4+1<<20 {
+		size = uint64(n)*4 + 1<<20
+	}
+	return bits.NewFixedSliceWriter(int(size))
+}
+
+// noAvoidRun: the case being run carries NoAvoid (read by lazyReads).
+var noAvoidRun bool
+
+func runContainer(c containerCase, data []byte) (res runResult) {
+	noAvoidRun = c.NoAvoid
 	var opts []mp4.Option
 	var fl mp4.DecFileFlags
 	if c.Flags&1 != 0 {
@@ -108,78 +561,233 @@ func runContainer(c containerCase, data []byte) (st stageInfo) {
 	var file *mp4.File
 	var box mp4.Box
 	var err error
-	switch c.Entry {
-	case "DecodeFile":
-		file, err = mp4.DecodeFile(bytes.NewReader(data), opts...)
-	case "DecodeFileLazy":
-		file, err = mp4.DecodeFile(bytes.NewReader(data), append(opts, mp4.WithDecodeMode(mp4.DecModeLazyMdat))...)
-	case "DecodeFileSR":
-		file, err = mp4.DecodeFileSR(bits.NewFixedSliceReader(data), opts...)
-	case "DecodeBox":
-		box, err = mp4.DecodeBox(0, bytes.NewReader(data))
-	case "DecodeBoxSR":
-		box, err = mp4.DecodeBoxSR(0, bits.NewFixedSliceReader(data))
-	case "DecodeBoxLazyMdat":
-		box, err = mp4.DecodeBoxLazyMdat(0, bytes.NewReader(data))
+	known := true
+	res.stage("decode", func() bool {
+		switch c.Entry {
+		case "DecodeFile":
+			file, err = mp4.DecodeFile(bytes.NewReader(data), opts...)
+		case "DecodeFileLazy":
+			file, err = mp4.DecodeFile(bytes.NewReader(data), append(opts, mp4.WithDecodeMode(mp4.DecModeLazyMdat))...)
+		case "DecodeFileOneByte":
+			file, err = mp4.DecodeFile(iotest.OneByteReader(bytes.NewReader(data)), opts...)
+		case "DecodeFileSR":
+			file, err = mp4.DecodeFileSR(bits.NewFixedSliceReader(data), opts...)
+		case "DecodeBox":
+			box, err = mp4.DecodeBox(0, bytes.NewReader(data))
+		case "DecodeBoxSR":
+			box, err = mp4.DecodeBoxSR(0, bits.NewFixedSliceReader(data))
+		case "DecodeBoxLazyMdat":
+			box, err = mp4.DecodeBoxLazyMdat(0, bytes.NewReader(data))
+		default:
+			known = false
+		}
+		return err == nil
+	})
+	if err != nil || !known {
+		return res
 	}
-	if err != nil || (file == nil && box == nil) {
-		return st
+	if file == nil && isNil(box) {
+		res.neither = true
+		return res
 	}
-	st.decoded = true
+	res.decoded = true
 	w := &discard{}
 	if file != nil {
-		if file.Info(w, c.Info, "", "  ") == nil {
-			st.info = true
+		if c.Entry == "DecodeFileLazy" {
+			res.stage("reads", func() bool { return lazyReads(file, data) })
 		}
-		_ = file.Size()
-		_ = file.IsFragmented()
+		res.info = res.stage("info", func() bool { return file.Info(w, c.Info, "", "  ") == nil })
+		var size uint64
+		res.stage("size", func() bool { size = file.Size(); _ = file.IsFragmented(); return true })
 		if c.Enc&1 != 0 {
 			file.FragEncMode = mp4.EncModeBoxTree
 		}
 		if c.Enc&4 != 0 {
 			file.EncOptimize = mp4.OptimizeTrun
 		}
-		for rounds := 0; rounds < 1+(c.Enc>>3)&1; rounds++ {
+		for round := 0; round < 1+(c.Enc>>3)&1; round++ {
+			name := "encode"
+			if round > 0 {
+				name = "encode2"
+				size = file.Size()
+			}
+			var ok bool
 			if c.Enc&2 != 0 {
-				size := file.Size()
-				if size > uint64(len(data))*4+1<<20 {
-					size = uint64(len(data))*4 + 1<<20 // a wrong Size() must not turn into an allocation finding of ours
-				}
-				sw := bits.NewFixedSliceWriter(int(size))
-				if file.EncodeSW(sw) == nil {
-					st.encoded = true
-				}
+				sw := encodeWriter(size, len(data))
+				ok = res.stage(name, func() bool { return file.EncodeSW(sw) == nil })
 			} else {
-				if file.Encode(w) == nil {
-					st.encoded = true
+				ok = res.stage(name, func() bool { return file.Encode(w) == nil })
+			}
+			res.encoded = res.encoded || ok
+		}
+		return res
+	}
+	res.info = res.stage("info", func() bool { return box.Info(w, c.Info, "", "  ") == nil })
+	var size uint64
+	res.stage("size", func() bool { size = box.Size(); _ = box.Type(); return true })
+	if c.Enc&2 != 0 {
+		sw := encodeWriter(size, len(data))
+		res.encoded = res.stage("encode", func() bool { return box.EncodeSW(sw) == nil })
+	} else {
+		res.encoded = res.stage("encode", func() bool { return box.Encode(io.Writer(w)) == nil })
+	}
+	return res
+}
+
+// lazyReads fetches, after a lazy-mdat decode, every sample the decoded structure describes through the lazy read API
+// (File.CopySampleData for progressive files, MdatBox.ReadData/CopyData for fragments). The structure may be as odd as
+// the input; the harness only asks for what a caller could ask for without dereferencing a missing box itself, never
+// asks for more bytes than the input has, and keeps the total work linear in the input. Errors are fine.
+func lazyReads(file *mp4.File, data []byte) bool {
+	rs := bytes.NewReader(data)
+	w := &discard{}
+	n := int64(len(data))
+	budget := 4*n + 4096
+	ok := true
+	if !file.IsFragmented() && file.Moov != nil && file.Mdat != nil {
+		for _, trak := range file.Moov.Traks {
+			if trak == nil || trak.Mdia == nil || trak.Mdia.Minf == nil || trak.Mdia.Minf.Stbl == nil {
+				continue
+			}
+			stbl := trak.Mdia.Minf.Stbl
+			if stbl.Stsz == nil || stbl.Stsc == nil || (stbl.Stco == nil && stbl.Co64 == nil) {
+				continue
+			}
+			ns := int64(stbl.Stsz.GetNrSamples())
+			if ns > n+1 {
+				ns = n + 1
+			}
+			if ns == 0 {
+				continue
+			}
+			if avoidKnown["copysampledata-hostile-tables"] && !noAvoidRun {
+				harness.Rec.Exclude("copysampledata-hostile-tables")
+				continue
+			}
+			if file.CopySampleData(w, rs, trak, 1, uint32(ns), nil) != nil {
+				ok = false
+			}
+			if file.CopySampleData(w, rs, trak, uint32(ns), uint32(ns), make([]byte, 7)) != nil {
+				ok = false
+			}
+		}
+	}
+	readMdat := func(m *mp4.MdatBox) {
+		ps := int64(m.PayloadAbsoluteOffset())
+		ls := int64(m.GetLazyDataSize())
+		for _, r := range [][2]int64{{ps, 0}, {ps, 1}, {ps - 1, 1}, {ps + ls - 1, 1}, {ps + ls, 1}, {-1, 1}, {0, -1}, {ps, ls}, {ps, ls + 1}} {
+			if r[1] > n {
+				continue // never ask for more than the input holds
+			}
+			if _, err := m.ReadData(r[0], r[1], rs); err != nil {
+				ok = false
+			}
+			if _, err := m.CopyData(r[0], r[1], rs, w); err != nil {
+				ok = false
+			}
+		}
+	}
+	if file.Mdat != nil {
+		readMdat(file.Mdat)
+	}
+	for _, seg := range file.Segments {
+		if seg == nil {
+			continue
+		}
+		for _, frag := range seg.Fragments {
+			if frag == nil || frag.Moof == nil || frag.Mdat == nil {
+				continue
+			}
+			readMdat(frag.Mdat)
+			for _, traf := range frag.Moof.Trafs {
+				if traf == nil || traf.Tfhd == nil {
+					continue
+				}
+				base := int64(frag.Moof.StartPos)
+				if traf.Tfhd.HasBaseDataOffset() {
+					base = int64(traf.Tfhd.BaseDataOffset)
+				}
+				for _, trun := range traf.Truns {
+					if trun == nil {
+						continue
+					}
+					off := base
+					if trun.HasDataOffset() {
+						off += int64(trun.DataOffset)
+					}
+					for _, s := range trun.Samples {
+						size := int64(s.Size)
+						if !trun.HasSampleSize() {
+							size = int64(traf.Tfhd.DefaultSampleSize)
+						}
+						if size <= n && budget > 0 {
+							budget -= size + 16
+							if _, err := frag.Mdat.ReadData(off, size, rs); err != nil {
+								ok = false
+							}
+						}
+						off += size
+					}
 				}
 			}
 		}
-		return st
 	}
-	if box.Info(w, c.Info, "", "  ") == nil {
-		st.info = true
-	}
-	size := box.Size()
-	_ = box.Type()
-	if c.Enc&2 != 0 {
-		if size > uint64(len(data))*4+1<<20 {
-			size = uint64(len(data))*4 + 1<<20
-		}
-		sw := bits.NewFixedSliceWriter(int(size))
-		if box.EncodeSW(sw) == nil {
-			st.encoded = true
-		}
-	} else if box.Encode(io.Writer(w)) == nil {
-		st.encoded = true
-	}
-	return st
+	return ok
 }
 
 // ---------------------------------------------------------------------------------------------
 
-var entries = []string{"DecodeFile", "DecodeFile", "DecodeFileLazy", "DecodeFileSR", "DecodeFileSR", "DecodeBox", "DecodeBoxSR", "DecodeBoxLazyMdat"}
+var entries = []string{"DecodeFile", "DecodeFile", "DecodeFileLazy", "DecodeFileOneByte", "DecodeFileSR", "DecodeFileSR", "DecodeBox", "DecodeBoxSR", "DecodeBoxLazyMdat"}
 var infoLevels = []string{"", "all:1", "trun:1,senc:1", "all:2", "stts:1,ctts:1,stsz:1,stsc:1,sidx:1,saiz:1,sbgp:1,sgpd:1"}
+
+// uniform draws a (nearly) uniform index in [0,n); rapid's integer generators favour small values and the bounds.
+func uniform(t *rapid.T, label string, n int) int {
+	v := rapid.Uint64().Draw(t, label)
+	v ^= v >> 30
+	v *= 0xbf58476d1ce4e5b9
+	v ^= v >> 27
+	v *= 0x94d049bb133111eb
+	v ^= v >> 31
+	v += rapid.Uint64().Draw(t, label+"'")
+	v ^= v >> 33
+	v *= 0xff51afd7ed558ccd
+	v ^= v >> 33
+	return int(v % uint64(n))
+}
+
+// fieldValues: the values a length, count or index field breaks on (truncated to the width written).
+var fieldValues = []uint64{0, 1, 0x7f, 0x80, 0xff, 0xffff, 0x7fffffff, 0xffffffff}
+
+// genLeafFields draws 1-4 typed overwrites (u8/u16/u32, boundary values) at uniformly drawn payload offsets of the
+// single box in synth. The grammar generator frames most leaves correctly but draws few hostile values inside codec
+// configuration records and descriptor lengths (dac3, dec3, av1C, hvcC arrays, avcC counts, esds, subs, ssix, leva,
+// tlou/alou, tfra length sizes); this puts them there without knowing the layout.
+func genLeafFields(t *rapid.T, synth []byte) []boxmut.Mut {
+	pl := len(synth) - 8
+	if tree, _ := boxwalk.WalkAll(synth); len(tree) > 0 {
+		pl = tree[0].Size - tree[0].HdrSize
+	}
+	if pl < 1 {
+		pl = 1
+	}
+	n := rapid.IntRange(1, 4).Draw(t, "nfields")
+	out := make([]boxmut.Mut, 0, n)
+	for i := 0; i < n; i++ {
+		out = append(out, boxmut.Mut{Op: "payload", Box: 0,
+			Off: uniform(t, "fieldOff", pl),
+			N:   rapid.SampledFrom([]int{1, 1, 2, 4}).Draw(t, "fieldWidth"),
+			Val: fieldValues[uniform(t, "fieldVal", len(fieldValues))]})
+	}
+	return out
+}
+
+var leafSet = func() map[string]bool {
+	m := map[string]bool{}
+	for _, l := range boxgen.LeafTypes() {
+		m[l] = true
+	}
+	return m
+}()
 
 func genCase(t *rapid.T, smallNames, allNames []string) containerCase {
 	c := containerCase{
@@ -188,13 +796,16 @@ func genCase(t *rapid.T, smallNames, allNames []string) containerCase {
 		Info:  rapid.SampledFrom(infoLevels).Draw(t, "info"),
 		Enc:   rapid.IntRange(0, 15).Draw(t, "enc"),
 	}
+	const shapePerMille = 10 // "nest", "repeat" and "grow" mutations: 1 % of the mutations each
 	switch mode := rapid.IntRange(0, 27).Draw(t, "mode"); {
 	case mode >= 20: // grammar-generated box or file: well framed, values legal (20-22) or hostile (23-27), then mutated or not
 		o := boxgen.Opt{Hostile: mode >= 23}
+		leaf := false
 		if strings.HasPrefix(c.Entry, "DecodeBox") {
 			typ := rapid.SampledFrom(synthTypes).Draw(t, "synthType")
 			c.Origin = "box:" + typ
 			c.Synth = boxgen.Box(t, typ, o)
+			leaf = leafSet[typ]
 		} else {
 			kind := rapid.SampledFrom([]string{"prog", "init", "media", "frag", "frag", "any"}).Draw(t, "synthKind")
 			c.Origin = "file:" + kind
@@ -204,7 +815,11 @@ func genCase(t *rapid.T, smallNames, allNames []string) containerCase {
 			c.Origin += ":hostile"
 		}
 		if rapid.Bool().Draw(t, "synthMutate") {
-			c.Muts = boxmut.Gen(t, 2)
+			if leaf && rapid.Bool().Draw(t, "leafFields") {
+				c.Muts = genLeafFields(t, c.Synth)
+			} else {
+				c.Muts = boxmut.GenExt(t, 2, shapePerMille)
+			}
 		}
 	case mode == 0: // random bytes with a valid first header
 		typ := rapid.SampledFrom([]string{"moov", "moof", "ftyp", "styp", "sidx", "mdat", "trun", "senc", "stsd", "meta", "uuid", "emsg", "mfra", "zzzz"}).Draw(t, "type")
@@ -217,10 +832,10 @@ func genCase(t *rapid.T, smallNames, allNames []string) containerCase {
 		c.Seed = rapid.SampledFrom(allNames).Draw(t, "seed")
 	case mode < 5:
 		c.Seed = rapid.SampledFrom(allNames).Draw(t, "seed")
-		c.Muts = boxmut.Gen(t, 4)
+		c.Muts = boxmut.GenExt(t, 4, shapePerMille)
 	default:
 		c.Seed = rapid.SampledFrom(smallNames).Draw(t, "seed")
-		c.Muts = boxmut.Gen(t, 4)
+		c.Muts = boxmut.GenExt(t, 4, shapePerMille)
 	}
 	if strings.HasPrefix(c.Entry, "DecodeBox") && c.Seed != "" && rapid.Bool().Draw(t, "pickbox") {
 		// box-level entry points: start inside the file at a drawn box
@@ -230,6 +845,42 @@ func genCase(t *rapid.T, smallNames, allNames []string) containerCase {
 }
 
 var synthTypes = append(append([]string{"moov", "trak", "stbl", "stsd", "moof", "traf", "moof", "traf", "sgpd", "sbgp", "senc", "saiz", "saio", "trun", "tfhd", "sidx", "tfra", "mfra", "meta", "udta", "stsc", "stsz", "ctts", "elst", "pssh", "emsg", "subs"}, boxgen.LeafTypes()...), boxgen.ContainerTypes()...)
+
+func sizeBucket(n int) string {
+	switch {
+	case n == 0:
+		return "0"
+	case n < 64:
+		return "<64"
+	case n < 1<<10:
+		return "<1K"
+	case n < 16<<10:
+		return "<16K"
+	case n < 256<<10:
+		return "<256K"
+	case n < 1<<20:
+		return "<1M"
+	}
+	return ">=1M"
+}
+
+func ratioBucket(r float64) string {
+	switch {
+	case r <= 1.0/1024:
+		return "<=1/1024"
+	case r <= 1.0/256:
+		return "<=1/256"
+	case r <= 1.0/64:
+		return "<=1/64"
+	case r <= 1.0/16:
+		return "<=1/16"
+	case r <= 1.0/4:
+		return "<=1/4"
+	case r <= 1:
+		return "<=1"
+	}
+	return ">1"
+}
 
 func TestContainer(t *testing.T) {
 	repo := harness.E.RepoDir
@@ -242,8 +893,10 @@ func TestContainer(t *testing.T) {
 		c := genCase(rt, small, all)
 		raw, _ := json.Marshal(c)
 		harness.SetCurrentCase("container", raw)
-		f := checkContainer(c)
+		data, f := evalCase(c)
+		run := lastRun
 		origin := "mutated-seed"
+		nt := true // non-trivial: the bytes differ from every input the repository's own tests decode
 		if c.Synth != nil {
 			origin = "grammar"
 			if strings.HasSuffix(c.Origin, ":hostile") {
@@ -251,28 +904,76 @@ func TestContainer(t *testing.T) {
 			}
 		} else if c.Seed == "" {
 			origin = "random-with-valid-header"
-		} else if len(c.Muts) == 0 {
-			origin = "unmodified-seed"
+		} else if data != nil && bytes.Equal(data, seeds.Get(repo, c.Seed)) {
+			origin = "unmodified-seed" // no recipe, or a recipe none of whose operations applied
+			nt = false
 		}
 		cls := []string{"origin-" + origin, "entry-" + c.Entry, fmt.Sprintf("flags-%d", c.Flags)}
+		if data != nil {
+			cls = append(cls, "size-"+sizeBucket(len(data)))
+		}
+		if c.Synth != nil {
+			cls = append(cls, "synth-"+strings.TrimSuffix(c.Origin, ":hostile"))
+		}
+		leafFields := c.Synth != nil && len(c.Muts) > 0
 		for _, m := range c.Muts {
 			cls = append(cls, "mut-"+m.Op)
+			switch m.Op {
+			case "nest":
+				cls = append(cls, fmt.Sprintf("nest-%s", m.Str), fmt.Sprintf("nest-depth-%d", m.N))
+			case "repeat":
+				cls = append(cls, fmt.Sprintf("repeat-%d", m.N))
+			case "grow":
+				cls = append(cls, fmt.Sprintf("grow-%d", m.N))
+			}
+			if m.Op != "payload" || m.Box != 0 {
+				leafFields = false
+			}
+		}
+		if leafFields && leafSet[strings.TrimPrefix(strings.TrimSuffix(c.Origin, ":hostile"), "box:")] {
+			cls = append(cls, "leaf-field-overwrite")
 		}
 		switch {
-		case lastStage.encoded:
+		case run.avoided != "":
+			cls = append(cls, "stage-not-run-known-shape")
+		case run.avoidedAfter != "":
+			cls = append(cls, "stage-failed-known-shape")
+		case run.res.encoded:
 			cls = append(cls, "stage-decoded+info+encoded")
-		case lastStage.decoded:
+		case run.res.decoded:
 			cls = append(cls, "stage-decoded")
 		default:
 			cls = append(cls, "stage-rejected")
 		}
-		nt := origin != "unmodified-seed"
+		if run.res.decoded {
+			if run.res.info {
+				cls = append(cls, "info-ok")
+			} else {
+				cls = append(cls, "info-err")
+			}
+			cls = append(cls, fmt.Sprintf("enc-%d", c.Enc))
+			for _, s := range run.res.stages {
+				if s.name == "reads" {
+					if s.ok {
+						cls = append(cls, "lazy-reads-ok")
+					} else {
+						cls = append(cls, "lazy-reads-err")
+					}
+				}
+			}
+		}
+		if run.avoided == "" && run.avoidedAfter == "" {
+			cls = append(cls, "alloc-ratio"+ratioBucket(run.allocRatio), "time-ratio"+ratioBucket(run.timeRatio))
+			if run.repeated {
+				cls = append(cls, "time-stage-repeated")
+			}
+		}
 		harness.Rec.Case(nt, raw, cls...)
-		if nt && lastStage.decoded && harness.Rec.WantSample() {
+		if nt && run.res.decoded && harness.Rec.WantSample() {
 			harness.Rec.Sample(map[string]interface{}{"kind": "container", "case": c})
 		}
 		if f != nil && (c.Seed != "" || c.Synth != nil) {
-			c.Data = c.bytes() // make the replay file self-contained
+			c.Data = data // make the replay file self-contained
 			if len(c.Data) > 64<<10 {
 				c.Data = nil
 			}
@@ -280,4 +981,6 @@ func TestContainer(t *testing.T) {
 		harness.Report(rt, "container", c, f)
 	})
 	harness.ClearCurrentCase()
+	harness.Rec.Note(fmt.Sprintf("shard %d: worst allocation/bound %.4f (%s); worst time/bound %.4f (%s)",
+		harness.E.Shard, worstAlloc.ratio, worstAlloc.what, worstTime.ratio, worstTime.what))
 }
